@@ -1,10 +1,13 @@
 PROPERTY = "C03"
 LEVEL = "proof"
-LEAN_MODULES = ["CifModel.Props.C03", "CifModel.Props.C03Extra", "CifModel.Lemmas.ParserTop", "CifModel.Lemmas.ParserDetProd", "CifModel.Lemmas.ParserDetLex", "CifModel.Lemmas.ParserDet"]
+LEAN_MODULES = ["CifModel.Props.C03", "CifModel.Props.C03Extra", "CifModel.Lemmas.ParserTop", "CifModel.Lemmas.ParserQuiet", "CifModel.Lemmas.ParserConsistent", "CifModel.Lemmas.ParserStore", "CifModel.Lemmas.ParserDetProd", "CifModel.Lemmas.ParserDetLex", "CifModel.Lemmas.ParserDet"]
 REQUIRED = ["CifModel.C03_total", "CifModel.C03_clamp", "CifModel.C03_report_site", "CifModel.C03_prefix_determinism", "CifModel.C03_result",
-            "CifModel.C03_reported_partial", "CifModel.C03_die_is_first", "CifModel.C03_accept_all", "CifModel.C03_codes_nonzero",
+            "CifModel.C03_reported_partial", "CifModel.C03_reported", "CifModel.Model.Parser.parseInternal_die", "CifModel.C03_consistent_after", "CifModel.C03_consistent_after_fresh",
+            "CifModel.C03_consistent_iff", "CifModel.C03_consistent_container", "CifModel.Model.Parser.parse_ok", "CifModel.Model.Parser.updIn_ok",
+            "CifModel.C03_die_is_first", "CifModel.C03_accept_all", "CifModel.C03_codes_nonzero",
             "CifModel.C03_fuel_suffices", "CifModel.C03_nofuel_only_from_callback", "CifModel.C03_callback_lines",
-            "CifModel.C03_scanner_lines_monotone", "CifModel.Model.Parser.parse_spec", "CifModel.Model.Parser.blocksLoop_det", "CifModel.Model.Lexer.nextToken_detl"]
+            "CifModel.C03_scanner_lines_monotone",
+            "CifModel.Model.Parser.parse_spec", "CifModel.Model.Parser.blocksLoop_det", "CifModel.Model.Lexer.nextToken_detl"]
 GEN = ["ErrCodes", "CharClass", "ParseConsts"]
 FAMILIES = ["parse", "parsebytes"]
 TRUSTED_BASE = [
@@ -27,17 +30,25 @@ ASSUMPTIONS = [
     "names are normalised by a parameter `norm`; the driver instantiates ASCII case folding (exact for the generated alphabets)",
 ]
 PARTIAL = [
-    "C03_reported is proved as C03_reported_partial: a failure whose value is not one of the five codes the model can return on its "
-    "own (CIF_INTERNAL_ERROR, CIF_INVALID_INDEX, CIF_INVALID_ITEMNAME, CIF_DUP_ITEMNAME from cif_packet_create, the model's out-of-fuel "
-    "marker) has reported at least one error.  Missing for C03_reported_full: that those `fail` sites are unreachable (INTERNAL_ERROR, "
-    "cif_packet_create codes: needs the invariant that retained loop-header names are valid and distinct) or preceded by a report "
-    "(INVALID_INDEX: needs the scanner fact that every disallowed unit of a token text was reported).  Observed instead by the "
-    "oracle of family `parse` on every request (never fails without a report).",
-    "C03_total: totality is by construction (Lean's termination check); the fuel-suffices lemma (the out-of-fuel marker 1001 is never "
-    "the result for the fuel 2*|input|+16 that `parse` passes) is NOT proved — 1001 has never been observed in the correspondence.",
-    "C03_callback_lines (every report has line >= 1) is not proved; checked by the oracle on every report of every request.",
-    "C03_consistent_after (store invariant) is not stated in Lean: the model stores into the abstract data model; the executor "
-    "walks, writes, modifies and destroys the real CIF after every parse under ASan/UBSan.",
+    "C03_reported is proved for every failure value except two: C03_reported says that a parse (any options, any policy, any "
+    "input, any initial target) that fails with a value other than CIF_INVALID_INDEX (73) and the model's out-of-fuel marker (1001) "
+    "has reported at least one error — the seven 'should not happen' exits (CIF_INTERNAL_ERROR x4, CIF_INVALID_ITEMNAME x2, "
+    "CIF_DUP_ITEMNAME) are proved unreachable before the first report (Lemmas/ParserQuiet).  Missing for C03_reported_full: "
+    "(a) CIF_INVALID_INDEX from cif_value_set_item_by_key on a table key with a disallowed character — needs the scanner fact that "
+    "every disallowed unit of a quoted key was reported (a lemma about Model/Lexer.scanDelim / keyPeek, not proved); (b) the "
+    "out-of-fuel marker — the fuel-suffices lemma.  Both are observed by the oracle of family `parse` on every request "
+    "(never fails without a report; 1001 never seen).",
+    "C03_total: totality is by construction (Lean's termination check) and the fuel is proved sufficient: C03_fuel_suffices (Props/C03Extra.lean, "
+    "potential argument over the lexer and the productions) — the out-of-fuel marker 1001 is never the result unless the callback itself answers 1001 "
+    "(C03_nofuel_only_from_callback)",
+    "C03_callback_lines is proved (Props/C03Extra.lean): every report of every parse has line >= 1, for every policy, completed or aborted; "
+    "C03_scanner_lines_monotone is the scanner-level form",
+    "C03_consistent_after is proved about the model's target (the documented data model, CifModel.Cif): block codes / frame codes "
+    "distinct after normalisation, every normalised item name once per container, at most one scalar loop, at most one packet in a "
+    "scalar loop — after every parse, also an aborted one, from every consistent initial target.  NOT in the invariant: that every "
+    "packet has as many values as its loop has names (needs the column bookkeeping of parse_loop_packets).  That the REAL store is "
+    "consistent after a parse is observed, not proved: the executor walks, writes, modifies and destroys the real CIF after every "
+    "parse under ASan/UBSan, and its dump is compared with the model's.",
     "memory safety, undefined behaviour and byte decoding of the C are runtime-observed only (families parse and parsebytes).",
 ]
 LEVEL_TEXT = ("Theorems about the executable integrated parser model (every input string, every option record, every callback "
